@@ -267,11 +267,19 @@ def write_json_lines(path, items):
 # Known findings
 
 def load_known():
+    """known_findings.json (committed).  While a check is being developed its
+    entries may sit in known_findings.d/<id>.json; they are merged into the
+    single file at integration."""
+    import glob
+    res = []
     p = os.path.join(VERIF, "known_findings.json")
-    if not os.path.exists(p):
-        return []
-    with open(p) as f:
-        return json.load(f).get("findings", [])
+    if os.path.exists(p):
+        with open(p) as f:
+            res += json.load(f).get("findings", [])
+    for q in sorted(glob.glob(os.path.join(VERIF, "known_findings.d", "*.json"))):
+        with open(q) as f:
+            res += json.load(f).get("findings", [])
+    return res
 
 
 class Check:
